@@ -158,8 +158,18 @@ def main(argv=None):
         futs = [] if a.no_t2 else [tp.submit(run_t2, d, tier, a.seed, budget) for d in drivers]
         if not a.no_t1 and (t1_funcs or lemma_names):
             ctx = multiprocessing.get_context("fork")
+            # longest jobs first, one function per task: the wall time of a check is that of its largest function, which must
+            # not wait in a chunk behind small ones (weight = number of obligations it generated when `expected` was written)
+            weight = {}
+            try:
+                exp_all = json.load(open(os.path.join(ROOT, "contracts", "expected_obligations.json")))
+                for name in exp_all.get(prop, []):
+                    weight[name.split("/")[0]] = weight.get(name.split("/")[0], 0) + 1
+            except Exception:
+                pass
+            t1_funcs = sorted(t1_funcs, key=lambda q: -weight.get(q, 0))
             with ctx.Pool(min(12, max(1, len(t1_funcs) + len(lemma_names)))) as pool:
-                fr = pool.map_async(_verify_one, [(q, timeout_ms) for q in t1_funcs])
+                fr = pool.map_async(_verify_one, [(q, timeout_ms) for q in t1_funcs], chunksize=1)
                 lr = pool.map_async(_prove_lemma, [(n, timeout_ms) for n in lemma_names])
                 fresults = fr.get()
                 lresults = [x for sub in lr.get() for x in sub]
